@@ -59,7 +59,7 @@ Open Scope Z_scope.
 Theorem static_known_sound : forall L G pv pv' e ctx,
   pv_agree G pv pv' -> asm_agree pv pv' -> covers L ctx -> expr_known L G e = true ->
   eval code_ops pv e ctx = eval code_ops pv' e ctx.
-Proof. intros L G pv pv' e ctx Hg Ha Hc Hk. exact (expr_known_indep L G pv pv' Hg false (fun _ => Ha) e ctx Hk eq_refl Hc). Qed.
+Proof. exact static_known_sound_expr. Qed.
 
 (* ... constants and data elements (value_statically_known / encoding_statically_known: no variable is known): the
    result does not depend on the provider at all *)
@@ -83,10 +83,7 @@ Theorem static_known_sound_state : forall names ns K,
   forall st st' pos pos' cg cg', good ns st -> good ns st' ->
   pv_agree (global_known true names (k_sym K)) (pvar names st pos cg) (pvar names st' pos' cg') /\
   asm_agree (pvar names st pos cg) (pvar names st' pos' cg').
-Proof.
-  intros names ns K Hres HK st st' pos pos' cg cg' Hg Hg'.
-  exact (conj (good_agree names ns K HK st st' pos pos' cg cg' Hg Hg') (asm_agree_pvar names Hres st pos cg st' pos' cg')).
-Qed.
+Proof. exact static_known_sound_states. Qed.
 
 (* the all-arguments condition and the `$`/`pc` test of the analysis are needed: without either one the two settings of
    the switch assemble the same program to different bits (the programs of findings F72 and F73) *)
